@@ -140,6 +140,7 @@ vharness! {
 }
 
 vharness! {
+    //@ twin_replay: yes
     //@ props: C15
     //@ tier: quick
     //@ expect: fail
